@@ -9,6 +9,7 @@ mod store;
 
 mod c07;
 mod c08;
+mod c12;
 mod node;
 
 use vpc::{Args, Report};
@@ -21,6 +22,7 @@ fn main() {
     match args.prop.as_str() {
         "C07" => c07::run(&args, &mut rep),
         "C08" => c08::run(&args, &mut rep),
+        "C12" => c12::run(&args, &mut rep),
         p => rep.inconclusive(format!("vp-cluster1 does not serve {p}")),
     }
     rep.write(&args);
